@@ -140,6 +140,26 @@ def _e4_twice(_):
     return traces[0] == traces[1], len(traces[0][0])
 
 
+def _e5_probe(_):
+    """E5 attaches: a PUT onto an existing member shows a body-read point and at least one thread hand-off."""
+    from ..core import asyncpoints
+
+    d = env.fresh_dir("e5")
+    try:
+        root = os.path.join(d, "root")
+        shutil.copytree(davsys.template_root("tree"), root, symlinks=True)
+        w = http.WsgiWorld(root)
+        try:
+            url = davsys.COLL_PATHS["cal"] + "a.ics"
+            asyncpoints.run(w.app, ("PUT", url, {"Content-Type": B.CT_ICS}, B.ALL_BODIES["X"]))
+            resp, _o, n, labels = asyncpoints.run(w.app, ("PUT", url, {"Content-Type": B.CT_ICS}, B.ALL_BODIES["X2"]))
+            return resp[0], n, labels
+        finally:
+            w.close()
+    finally:
+        shutil.rmtree(d, ignore_errors=True)
+
+
 def main(args):
     env.bind_repo()
     failures = []
@@ -152,6 +172,7 @@ def main(args):
         fronts = [pool.apply_async(_front_probe, (f,)) for f in ("wsgi", "aio", "proc")]
         shims = [pool.apply_async(_shim_vs_strace, (k,)) for k in ("tree", "bare")]
         e4 = pool.apply_async(_e4_twice, (0,))
+        e5 = pool.apply_async(_e5_probe, (0,))
         a, b = r1.get(300), r2.get(300)
         if a != b:
             failures.append("determinism: the same history gave different keys/audits in two processes")
@@ -171,6 +192,15 @@ def main(args):
         print("selftest E4 replay of one schedule twice (%d steps): %s" % (n, "ok" if same else "FAILED"))
         if not same:
             failures.append("E4 replay diverged")
+        try:
+            code, n, labels = e5.get(300)
+            ok = code in (201, 204) and "read-body" in labels and n >= 2
+            print("selftest E5 attachment (PUT: %s, %d suspension points %s): %s" % (code, n, labels, "ok" if ok else "FAILED"))
+            if not ok:
+                failures.append("E5 does not see the suspension points of a PUT (body read + thread hand-off)")
+        except Exception as e:
+            print("selftest E5 attachment: FAILED %s: %s" % (type(e).__name__, e))
+            failures.append("E5 cannot attach: %s" % e)
     for f in failures:
         print("HARNESS-ERROR: selftest: %s" % f)
     return 2 if failures else 0
